@@ -192,8 +192,9 @@ SeqRange(s) == {s[i] : i \in 1..Len(s)}
 ReportOK(t, r, rep) ==
   LET p == Normalize(r.p)
       k == Kind(t, p) IN
-  CASE r.m = "GET" -> rep.clen = t[p].n /\ rep.body = t[p].d /\ rep.etag
-    [] r.m = "HEAD" -> rep.clen = t[p].n /\ rep.body = "" /\ rep.etag
+  \* entity headers of a stored file: its length, its tag, its modification time (a parsable HTTP date)
+  CASE r.m = "GET" -> rep.clen = t[p].n /\ rep.body = t[p].d /\ rep.etag /\ rep.lm
+    [] r.m = "HEAD" -> rep.clen = t[p].n /\ rep.body = "" /\ rep.etag /\ rep.lm
     [] r.m = "OPTIONS" -> /\ "1" \in SeqRange(rep.dav)
                           /\ (~BelowFile(t, p) => AllowMust(k) \subseteq SeqRange(rep.allow))
                           /\ AllowMustNot(k) \cap SeqRange(rep.allow) = {}
@@ -207,7 +208,7 @@ ReportOK(t, r, rep) ==
               LET q == Normalize(rs[i].href) IN
               q \in DOMAIN t =>
                 /\ rs[i].k = t[q].k
-                /\ (t[q].k = "f" /\ r.pform \in {"allprop", "empty", "fileinfo"} => rs[i].len = t[q].n /\ rs[i].etag)
+                /\ (t[q].k = "f" /\ r.pform \in {"allprop", "empty", "fileinfo"} => rs[i].len = t[q].n /\ rs[i].etag /\ rs[i].lm)
     [] OTHER -> TRUE
 
 =============================================================================
